@@ -14,6 +14,8 @@ import (
 	"runtime"
 	"sort"
 	"strings"
+	"sync"
+	"sync/atomic"
 )
 
 type input struct {
@@ -24,17 +26,17 @@ type input struct {
 }
 
 type replay struct {
-	Harness string         `json:"harness"`
-	Label   string         `json:"label"`
-	Inputs  []input        `json:"inputs"`
-	Params  map[string]int `json:"params"`
+	Harness string            `json:"harness"`
+	Label   string            `json:"label"`
+	Inputs  []input           `json:"inputs"`
+	Params  map[string]int    `json:"params"`
 	PBytes  map[string][]byte `json:"pbytes"`
 }
 
 // Result of a native replay.
 type Result struct {
-	Failed   []string          `json:"failed"`   // labels of failed assertions
-	Assumes  int               `json:"assumes"`  // number of violated assumptions (model mismatch)
+	Failed   []string          `json:"failed"`  // labels of failed assertions
+	Assumes  int               `json:"assumes"` // number of violated assumptions (model mismatch)
 	Reached  []string          `json:"reached"`
 	Observed map[string]string `json:"observed"`
 	Panic    string            `json:"panic,omitempty"`
@@ -43,12 +45,36 @@ type Result struct {
 }
 
 var (
-	cur  replay
-	pos  int
-	res  Result
+	cur replay
+	pos int
+	res Result
 )
 
 type assumeFailed struct{}
+
+// Race mode (VERIF_RACE set, binary built with -race): the replay of a lock-discipline violation.
+// The harness's probe function runs in a second goroutine while the recorded operations are
+// replayed, so that the race detector sees the unordered accesses.
+var (
+	raceMode  = os.Getenv("VERIF_RACE") != ""
+	probeStop atomic.Bool
+	probeWG   sync.WaitGroup
+)
+
+// RaceProbe registers read-only traffic for race mode; a no-op under the engine and in plain replays.
+func RaceProbe(f func()) {
+	if !raceMode {
+		return
+	}
+	probeWG.Add(1)
+	go func() {
+		defer probeWG.Done()
+		for !probeStop.Load() {
+			f()
+			runtime.Gosched()
+		}
+	}()
+}
 
 func next(kind string) uint64 {
 	if pos >= len(cur.Inputs) {
@@ -57,6 +83,9 @@ func next(kind string) uint64 {
 	}
 	x := cur.Inputs[pos]
 	pos++
+	if raceMode {
+		runtime.Gosched()
+	}
 	return x.V
 }
 
@@ -208,40 +237,51 @@ func RunReplay(harnesses map[string]func()) int {
 		list = []replay{one}
 	}
 	var out []Result
+	rounds := 1
+	if raceMode {
+		rounds = 40
+	}
 	for _, r := range list {
-		cur, pos, res = r, 0, Result{}
-		name := r.Harness
-		if i := strings.LastIndex(name, "."); i >= 0 {
-			name = name[i+1:]
-		}
-		h, ok := harnesses[name]
-		if !ok {
-			var ks []string
-			for k := range harnesses {
-				ks = append(ks, k)
+		for round := 0; round < rounds; round++ {
+			cur, pos, res = r, 0, Result{}
+			probeStop.Store(false)
+			name := r.Harness
+			if i := strings.LastIndex(name, "."); i >= 0 {
+				name = name[i+1:]
 			}
-			sort.Strings(ks)
-			res.Panic = "unknown harness " + name + " (have " + strings.Join(ks, ",") + ")"
-			out = append(out, res)
-			continue
-		}
-		func() {
-			defer func() {
-				if p := recover(); p != nil {
-					if _, ok := p.(assumeFailed); ok {
-						return
-					}
-					buf := make([]byte, 4096)
-					buf = buf[:runtime.Stack(buf, false)]
-					res.Panic = fmt.Sprintf("%v", p)
-					if os.Getenv("VERIF_STACK") != "" {
-						res.Panic += "\n" + string(buf)
-					}
+			h, ok := harnesses[name]
+			if !ok {
+				var ks []string
+				for k := range harnesses {
+					ks = append(ks, k)
 				}
+				sort.Strings(ks)
+				res.Panic = "unknown harness " + name + " (have " + strings.Join(ks, ",") + ")"
+				out = append(out, res)
+				break
+			}
+			func() {
+				defer func() {
+					if p := recover(); p != nil {
+						if _, ok := p.(assumeFailed); ok {
+							return
+						}
+						buf := make([]byte, 4096)
+						buf = buf[:runtime.Stack(buf, false)]
+						res.Panic = fmt.Sprintf("%v", p)
+						if os.Getenv("VERIF_STACK") != "" {
+							res.Panic += "\n" + string(buf)
+						}
+					}
+				}()
+				h()
 			}()
-			h()
-		}()
-		out = append(out, res)
+			probeStop.Store(true)
+			probeWG.Wait()
+			if round == rounds-1 {
+				out = append(out, res)
+			}
+		}
 	}
 	js, _ := json.MarshalIndent(out, "", " ")
 	if rp := os.Getenv("VERIF_RESULT"); rp != "" {
